@@ -1,4 +1,4 @@
-"""C12 -- closing and reopening a project loses nothing (writer/reader agreement R12.1-R12.7)."""
+"""C12 -- closing and reopening a project loses nothing (writer/reader agreement R12.1-R12.9)."""
 from __future__ import annotations
 
 import ast
@@ -18,7 +18,7 @@ EXPLANATION = (
     "the same method negated on both sides; reserved key rejected.  R12.4: __getstate__/__setstate__ tag and field "
     "order agree.  R12.5: every data-file name written is read and vice versa; dump/load act on the same path "
     "expression.  R12.6 (=R16.3): a content change rebuilt from data reads the file before writing it.  R12.7: the "
-    "history writer's list order equals the loader's index order.  R12.8: a non-inline dict key is stored under the "
+    "history writer's list order equals the loader's index order.  R12.9: no saved field depends on the change's class identity against a class the reader does not rebuild.  R12.8: a non-inline dict key is stored under the "
     "index at which it was appended to the reference table (evaluation-order aware).  Value-level round-trip equality is not decided."
 )
 ASSUMPTIONS = ["taint is flow-insensitive with control dependence on if-tests", "json.dumps/loads behave as documented"]
@@ -190,6 +190,27 @@ def check(ctx, res) -> None:
                 if isinstance(x, ast.Name) and x.id in loc:
                     rs |= loc[x.id]
             roots.append(rs)
+        # R12.9 the saved fields are functions of state the reader restores.  The reader rebuilds an object of the classes
+        # it constructs; a writer field that depends on the change's CLASS identity (isinstance / type / __class__) against
+        # a class the reader never constructs has a different value once the history has been reloaded and is saved again.
+        built = {call_name(c) for c in calls_in(rm.node)}
+        cls_tests = []
+        for x in ast.walk(wm.node):
+            if isinstance(x, ast.Call) and call_name(x) == "isinstance" and len(x.args) == 2 and isinstance(x.args[0], ast.Name) and x.args[0].id == obj:
+                kk = x.args[1]
+                for e in (kk.elts if isinstance(kk, ast.Tuple) else [kk]):
+                    nm = e.attr if isinstance(e, ast.Attribute) else getattr(e, "id", None)
+                    if nm and nm not in built:
+                        cls_tests.append((x, nm))
+            if isinstance(x, ast.Call) and call_name(x) == "type" and len(x.args) == 1 and isinstance(x.args[0], ast.Name) and x.args[0].id == obj:
+                cls_tests.append((x, "type()"))
+            if isinstance(x, ast.Attribute) and x.attr == "__class__" and isinstance(x.value, ast.Name) and x.value.id == obj:
+                cls_tests.append((x, "__class__"))
+        res.add("R12.9", f"{k}|class-identity", not cls_tests, f"{wm.unit.rel}:{(cls_tests[0][0] if cls_tests else wm.node).lineno}",
+                "saved fields depend only on attributes of the change" if not cls_tests else
+                f"{wp}{k} computes a saved field from the change's class identity ({ast.unparse(cls_tests[0][0])}), but {rp}{k} rebuilds "
+                f"{sorted(b for b in built if b[:1].isupper())}: after one close/reopen the reloaded change is saved with a different value "
+                "(a folder creation comes back as a file creation), so redo after the second reopen does something else")
         a = rm.node.args
         ps = [p.arg for p in a.posonlyargs + a.args][1:]
         nreq = len(ps) - len(a.defaults)
